@@ -34,6 +34,10 @@ def gen_record(rng, kind: str) -> dict:
         return E.gen_params(rng, "Cavity", force={"V": 0.0})
     if kind == "ActiveAperture":
         return E.gen_params(rng, "Aperture", force={"active": True})
+    if kind == "ClosedAperture":      # stops the whole bunch
+        return E.gen_params(rng, "Aperture", force={"active": True, "xmax": 1e-9, "ymax": 1e-9})
+    if kind == "BlockingScreen":
+        return E.gen_params(rng, "Screen", force={"active": True, "blocking": True})
     if kind == "ActiveBPM":
         return E.gen_params(rng, "BPM", force={"active": True})
     if kind == "ActiveScreen":
@@ -44,10 +48,12 @@ def gen_record(rng, kind: str) -> dict:
 DEFAULT_MIX = (["Drift"] * 4 + ["Quadrupole"] * 4 + ["Dipole", "RBend", "Solenoid", "HorizontalCorrector",
                "VerticalCorrector", "Undulator", "Marker", "Marker", "BmadxDrift", "BmadxQuadrupole", "ActiveCavity",
                "ActiveCavity", "OffCavity", "ActiveAperture", "ActiveBPM", "ActiveScreen", "BPM", "Screen", "Aperture",
-               "CustomTransferMap"])
+               "CustomTransferMap", "ClosedAperture", "BlockingScreen"])
 
 
-def gen_lattice(rng, n_max: int = 8, mix=None, n_min: int = 1) -> list[dict]:
+def gen_lattice(rng, n_max: int = 8, mix=None, n_min: int = 1, dup_names: float = 0.0) -> list[dict]:
+    """dup_names: probability that an element gets the name of an earlier one (Segment supports several elements of one
+    name; anything keyed on names must still tell them apart)"""
     mix = mix or DEFAULT_MIX
     n = int(rng.integers(n_min, n_max + 1))
     recs = []
@@ -55,6 +61,9 @@ def gen_lattice(rng, n_max: int = 8, mix=None, n_min: int = 1) -> list[dict]:
         r = gen_record(rng, mix[int(rng.integers(len(mix)))])
         tame(r)
         r["name"] = f"el{i}"
+        if dup_names and recs and rng.random() < dup_names:
+            same = [q for q in recs if q["cls"] == r["cls"]] or recs
+            r["name"] = same[int(rng.integers(len(same)))]["name"]
         recs.append(r)
     return recs
 
